@@ -454,3 +454,146 @@ def build_rules(rep, FB, lib_consts, readme_vars, pairing, rule='PROV-BUILD'):
         else:
             rep.violation(rule, 'readme:%s' % v, 'README documents $%s but build.rs never reads it' % v)
     return n, triples
+
+
+# ---------------------------------------------------------------- PROV-CTX (a context is honoured)
+def _param_kinds(g):
+    """indices (1-based) of the rounding-relevant parameters of function g"""
+    out = {}
+    for i in range(1, g.argc + 1):
+        ty = g.ty(i)
+        if re.search(r'(^|[ &:])Context$', ty):
+            out[i] = 'ctx'
+        elif ty.endswith('RoundingMode'):
+            out[i] = 'mode'
+        elif ty.endswith('NonDigitRoundingData'):
+            out[i] = 'rdata'
+        elif re.search(r'NonZero<u64>$|NonZeroU64$', ty):
+            out[i] = 'prec'
+    return out
+
+
+MIRROR = {'variant:RoundingMode::Floor', 'variant:RoundingMode::Ceiling'}
+ACCESSOR = re.compile(r'Context::(precision|rounding_mode|new|with_\w+)$|Clone::clone$|clone::Clone>::clone$|fmt::Debug>::fmt$|::eq$|::hash$|::default$|needs_trailing_zeros$')
+
+
+def _out_locals(f):
+    """locals through which a function delivers its result: the return place and &mut parameters"""
+    return [0] + [i for i in range(1, f.argc + 1) if f.locals[i].startswith('&mut')]
+
+
+def ctx_honoured(rep, F, E, fns, rule='PROV-CTX'):
+    """for every given function with a Context parameter: the rounding routine(s) whose result
+    reaches the return value receive mode <- ctx.rounding and precision <- ctx.precision"""
+    from dataflow import backward_calls
+    n = 0
+    for f in fns:
+        ci = ctx_param_index(f)
+        if ci is None:
+            continue
+        rep.add_functions([f.name])
+
+        def is_sink(t, F=F):
+            g = F.fns.get(cres(t))
+            if g is None:
+                return False
+            if ACCESSOR.search(g.name):
+                return False
+            kinds = _param_kinds(g)
+            return any(k in ('ctx', 'mode', 'rdata') for k in kinds.values())
+
+        stops, _ = backward_calls(f, _out_locals(f), is_sink)
+        if not stops:
+            rep.undecided(rule, f.key + ':no-final-sink', 'no rounding routine feeds the returned value in this body (nothing to decide here)', f.where())
+            continue
+        ordn = collections.Counter()
+        for bid, t in stops:
+            g = F.fns[cres(t)]
+            kinds = _param_kinds(g)
+            k0 = '%s->%s' % (f.key, g.key)
+            o = ordn[k0]
+            ordn[k0] += 1
+            key = '%s#%d' % (k0, o)
+            n += 1
+            problems = []
+            P_CTX = 'param:%d' % ci
+            for i, kind in sorted(kinds.items()):
+                if i > len(t['args']):
+                    continue
+                pv = E.arg_prov(f, t, i - 1)
+                if kind == 'ctx':
+                    srcs = pv.all()
+                    extra = {s for s in srcs if not s.startswith(P_CTX) and not s.startswith('tag:')}
+                    rounding = pv.f.get('rounding', srcs)
+                    precision = pv.f.get('precision', srcs)
+                    if not any(s.startswith(P_CTX) for s in srcs):
+                        problems.append('context argument does not derive from the context parameter: %s' % short(srcs))
+                    elif extra and not (extra <= MIRROR and extra == MIRROR):
+                        problems.append('context argument mixes in %s' % short(extra))
+                    if 'precision' in pv.f and not all(s.startswith(P_CTX) for s in precision):
+                        problems.append('precision of the forwarded context derives from %s' % short(precision))
+                elif kind == 'mode':
+                    srcs = pv.all()
+                    if not srcs or not all(s == P_CTX + '.rounding' or s == P_CTX for s in srcs):
+                        problems.append('mode argument sources %s (must be ctx.rounding)' % short(srcs))
+                elif kind == 'rdata':
+                    mode = pv.f.get('mode', pv.all())
+                    if not mode or not all(s == P_CTX + '.rounding' or s == P_CTX for s in mode):
+                        problems.append('rounding-data mode sources %s (must be ctx.rounding)' % short(mode))
+                elif kind == 'prec':
+                    srcs = pv.all()
+                    if not srcs or not all(s.startswith(P_CTX) for s in srcs):
+                        problems.append('precision argument sources %s (must be ctx.precision)' % short(srcs))
+            if problems:
+                rep.violation(rule, key, 'the rounding routine whose result is returned does not honour the context: ' + '; '.join(problems), f.where(t['loc']['line']))
+            else:
+                rep.ok(rule, key, 'final rounding routine %s receives the context parameter\'s precision and mode' % g.key.split('::')[-1], f.where(t['loc']['line']))
+    return n
+
+
+def mode_pair_honoured(rep, F, E, fns, rule='PROV-CTX'):
+    """functions that receive (precision, mode or rounding data) as plain parameters: the final
+    rounding routine receives exactly those parameters"""
+    from dataflow import backward_calls
+    n = 0
+    for f in fns:
+        kinds_f = _param_kinds(f)
+        mode_i = [i for i, k in kinds_f.items() if k in ('mode', 'rdata')]
+        if not mode_i or ctx_param_index(f) is not None:
+            continue
+        rep.add_functions([f.name])
+        mi = mode_i[0]
+
+        def is_sink(t, F=F):
+            g = F.fns.get(cres(t))
+            if g is None:
+                return False
+            if ACCESSOR.search(g.name):
+                return False
+            return any(k in ('mode', 'rdata') for k in _param_kinds(g).values())
+
+        stops, _ = backward_calls(f, _out_locals(f), is_sink)
+        if not stops:
+            rep.undecided(rule, f.key + ':no-final-sink', 'no rounding routine feeds the returned value in this body', f.where())
+            continue
+        ordn = collections.Counter()
+        for bid, t in stops:
+            g = F.fns[cres(t)]
+            k0 = '%s->%s' % (f.key, g.key)
+            o = ordn[k0]
+            ordn[k0] += 1
+            n += 1
+            problems = []
+            for i, kind in sorted(_param_kinds(g).items()):
+                if kind not in ('mode', 'rdata') or i > len(t['args']):
+                    continue
+                pv = E.arg_prov(f, t, i - 1)
+                srcs = pv.f.get('mode', pv.all()) if kind == 'rdata' else pv.all()
+                want = 'param:%d' % mi
+                if not srcs or not all(s == want or s.startswith(want + '.') for s in srcs):
+                    problems.append('mode sources %s (must be the %s parameter)' % (short(srcs), 'rounding-data' if kinds_f[mi] == 'rdata' else 'mode'))
+            if problems:
+                rep.violation(rule, '%s#%d' % (k0, o), 'final rounding routine ignores the caller\'s rounding mode: ' + '; '.join(problems), f.where(t['loc']['line']))
+            else:
+                rep.ok(rule, '%s#%d' % (k0, o), 'final rounding routine receives the mode parameter unchanged', f.where(t['loc']['line']))
+    return n
